@@ -65,14 +65,50 @@ def repo_fingerprint():
 def build_tools():
     """tools that do not depend on /repo: built once (setup) or on demand"""
     msgs = []
-    if not os.path.exists(os.path.join(BIN, 'gen_tables')):
-        rc, out = sh(['go', 'build', '-o', os.path.join(BIN, 'gen_tables'), '.'], cwd=os.path.join(ROOT, 'tools/gen_tables'), env=GOENV, timeout=600)
-        if rc:
-            msgs.append('gen_tables build failed: ' + out[-2000:])
+    for tool in ('gen_tables', 'gen_ssa'):
+        src = os.path.join(ROOT, 'tools', tool)
+        binp = os.path.join(BIN, tool)
+        newest = max(os.path.getmtime(os.path.join(src, f)) for f in os.listdir(src) if f.endswith('.go') or f == 'go.mod')
+        if not os.path.exists(binp) or os.path.getmtime(binp) < newest:
+            rc, out = sh(['go', 'build', '-o', binp, '.'], cwd=src, env=GOENV, timeout=900)
+            if rc:
+                msgs.append('%s build failed: %s' % (tool, out[-2000:]))
+            elif tool == 'gen_ssa' and os.path.exists(os.path.join(WORK, 'ssa.stamp')):
+                os.remove(os.path.join(WORK, 'ssa.stamp'))     # new translator: regenerate the facts
     mk, cp = os.path.join(COQ, 'Makefile'), os.path.join(COQ, '_CoqProject')
     if not os.path.exists(mk) or os.path.getmtime(mk) < os.path.getmtime(cp):
         sh(['coq_makefile', '-f', '_CoqProject', '-o', 'Makefile'], cwd=COQ, timeout=120)
     return msgs
+
+
+def build_harness(st, log):
+    """the Go harness against the working tree; then what the built library reports about itself (for gen_tables)"""
+    sh(['go', 'mod', 'edit', '-replace', 'github.com/ja7ad/otp=' + REPO], cwd=os.path.join(ROOT, 'harness'), env=GOENV, timeout=60)
+    rc, out = sh(['go', 'build', '-tags', 'verif', '-o', os.path.join(BIN, 'harness'), '.'], cwd=os.path.join(ROOT, 'harness'), env=GOENV, timeout=900)
+    log.write('--- go build harness\n' + out)
+    st['hooks'] = True
+    if rc:
+        # the repository's hook file (verif_hooks.go) names unexported helpers; when one of them was renamed the
+        # tagged build fails although the library is fine: build without the hooks, the stage-level cases are skipped
+        rc2, out2 = sh(['go', 'build', '-o', os.path.join(BIN, 'harness'), '.'], cwd=os.path.join(ROOT, 'harness'), env=GOENV, timeout=900)
+        log.write('--- go build harness (without the verif tag)\n' + out2)
+        if rc2:
+            st['harness_ok'] = False
+            st['notes'].append('harness does not build against /repo: ' + out2.strip()[-800:])
+        else:
+            st['hooks'] = False
+            st['notes'].append('built without the verification hooks (the tagged build failed: %s); stage-level cases are skipped' % out.strip()[-300:])
+    dump = os.path.join(WORK, 'runtime_dump.json')
+    if os.path.exists(dump):
+        os.remove(dump)
+    if st['harness_ok']:
+        rc, out = sh([os.path.join(BIN, 'harness'), 'dump'], timeout=120)
+        if rc == 0 and out.lstrip().startswith('{'):
+            with open(dump, 'w') as f:
+                f.write(out)
+        else:
+            st['notes'].append('the built library could not be asked about itself (harness dump): ' + out.strip()[-300:])
+    return dump if os.path.exists(dump) else None
 
 
 def build_all(log):
@@ -81,11 +117,21 @@ def build_all(log):
     st = {'translator_ok': True, 'coq_model_ok': True, 'coq_all_ok': True, 'runner_ok': True, 'harness_ok': True,
           'coq_errors': [], 'notes': []}
     st['notes'] += build_tools()
-    rc, out = sh([os.path.join(BIN, 'gen_tables'), REPO, os.path.join(COQ, 'Generated')], timeout=120)
+    os.makedirs(WORK, exist_ok=True)
+    dump = build_harness(st, log)
+    rc, out = sh([os.path.join(BIN, 'gen_tables'), REPO, os.path.join(COQ, 'Generated')] + ([dump] if dump else []), timeout=120)
     if rc:
         st['translator_ok'] = False
         st['notes'].append('translator gen_tables failed: ' + out.strip()[-500:])
     log.write('--- gen_tables\n' + out)
+    try:
+        prov = json.load(open(os.path.join(COQ, 'Generated', 'provenance.json')))
+        odd = sorted('%s: %s' % (k, v) for k, v in prov.items() if v not in ('source', 'runtime'))
+        if odd:
+            st['notes'].append('generated items not read from the source or the built library: ' + ', '.join(odd))
+        st['provenance'] = prov
+    except Exception:
+        pass
     # SSA fact bases (C09 and the structural parts of C11-C13): regenerated when the tree changed
     fp = repo_fingerprint()
     stamp = os.path.join(WORK, 'ssa.stamp')
@@ -122,12 +168,6 @@ def build_all(log):
     if rc:
         st['coq_all_ok'] = False
         st['coq_errors'] += coq_errors(out)
-    sh(['go', 'mod', 'edit', '-replace', 'github.com/ja7ad/otp=' + REPO], cwd=os.path.join(ROOT, 'harness'), env=GOENV, timeout=60)
-    rc, out = sh(['go', 'build', '-tags', 'verif', '-o', os.path.join(BIN, 'harness'), '.'], cwd=os.path.join(ROOT, 'harness'), env=GOENV, timeout=900)
-    log.write('--- go build harness\n' + out)
-    if rc:
-        st['harness_ok'] = False
-        st['notes'].append('harness does not build against /repo: ' + out.strip()[-800:])
     return st
 
 
@@ -328,7 +368,7 @@ def run_vm(cases, log):
 
 
 def outcome_match(impl, model):
-    if impl == model:
+    if impl == model or impl == 'unavailable':      # unavailable: a stage-level case without the hooks (not compared)
         return True
     if '|mem:' in model and '|mem:' in impl:       # canary: the inner answer, then the memory report
         mi, ms = impl.rsplit('|mem:', 1)
